@@ -258,7 +258,7 @@ theorem csi_chunks_complete_after_roundtrip (ms d : Nat) (hd : d ≤ 9) (hgeom :
     csi_built_wf ms d hd hgeom 2 (Or.inr rfl) [] (by simp) recs h hlen hrid hoff
   refine ⟨_, readCsi_writeCsi _ hwf, ?_⟩
   rw [IndexIO.csi_chunks_norm]
-  exact (Hts.Props.C04.csi_chunks_complete ms d (by omega) recs h r hr hp beg stop hb hq hs hov1 hov2 id encLaw_id).1
+  exact (Hts.Props.C04.csi_chunks_complete ms d (by omega) hgeom recs h r hr hp beg stop hb hq hs hov1 hov2 id encLaw_id).1
 
 /-! ### statistics equal the true counts -/
 
@@ -303,7 +303,7 @@ theorem stats_true (recs : List Rec) (h : SortedInput recs) :
 
 /-- `stats_true` for CSI (every geometry): per-reference statistics, unplaced counter and reference
 count of an index built from a coordinate-sorted sequence are the true ones -/
-theorem csi_stats_true (ms d : Nat) (recs : List Csi.CRec) (h : Csi.CSortedInput ms d recs) :
+theorem csi_stats_true (ms d : Nat) (_hgeom : ms + 3 * d ≤ 62) (recs : List Csi.CRec) (h : Csi.CSortedInput ms d recs) :
     (∀ (j : Nat) (ref : Csi.CRef), (Hts.Props.C04.csiBuilt ms d recs).refs[j]? = some ref →
         ref.stats = Csi.specStatsC ((recs.filter (·.placed)).filter (fun a => decide (a.rid = (j : Int))))) ∧
     (recs ≠ [] → (Hts.Props.C04.csiBuilt ms d recs).unmapped = some (recs.countP (fun r => !r.placed))) ∧
